@@ -20,8 +20,8 @@ Level: proof, partial. What the theorems do NOT cover (observed by the correspon
 the implementation instead): a general statement that every node position is the true position of
 its first token outside D18/D19/D20/D61/D62 (only the token-level theorem `tok_pos_partial` and
 the witnesses are proved; the parser-level statement is checked on generated documents);
-token-level and grammar-level print/parse round trips (not attempted); Go panics and
-`strconv.ParseFloat`.
+the grammar-level print/parse round trip (the token-sequence round trip is proved for all token
+kinds but doubles, hex integers and '…' literals); Go panics and `strconv.ParseFloat`.
 -/
 import ThriftVerif.Idl.QuoteProofs
 import ThriftVerif.Idl.NumberProofs
@@ -29,6 +29,7 @@ import ThriftVerif.Idl.ParserProofs
 import ThriftVerif.Idl.FuelProofs
 import ThriftVerif.Idl.WalkProofs
 import ThriftVerif.Idl.TokenProofs
+import ThriftVerif.Idl.RoundTripProofs
 import ThriftVerif.Idl.Observe
 
 namespace ThriftVerif.Properties.C11
@@ -211,13 +212,33 @@ example : showInt (-9223372036854775808) = b!"-9223372036854775808" ∧ showHex 
     lexInt b!"9223372036854775808" = none ∧ lexInt b!"0x7fffffffffffffff" = some 9223372036854775807 := by
   decide
 
-/-! ### (f) print / scan round trip — PARTIAL: single tokens only
+/-! ### (f) print / scan round trip
 
-Missing: the round trip for a whole token sequence under a layout grammar
-(`lex (render layout toks) = toks`: needs the same statement for identifiers, keywords, symbols and
-doubles plus the composition through the skip loop), and the grammar-level round trip
-`parse (print ast) = ast`. Both are exercised on generated documents by the harness
-(parse(render(ast)) against the printer's tree). -/
+Proved: the token-sequence round trip for the layout grammar. Missing (PARTIAL): printed doubles,
+hex integers and '…' literals as token kinds of that theorem (their single-token facts are
+`lexInt_forms`, `unquote_quote_single`); the grammar-level round trip `parse (print ast) = ast`,
+which the harness exercises on generated documents (parse(render(ast)) against the printer's tree). -/
+
+/-- Token-sequence round trip. Take any sequence of printed tokens — symbols, identifiers (whatever
+the identifier pattern matches entirely and is neither keyword nor reserved word), keywords, int64
+in decimal, double-quoted literals of arbitrary bytes — each preceded by any layout from the layout
+grammar: blanks, newlines, `#…⏎` and `//…⏎` comments, `/*…*/` comments and docstrings (non-empty
+body without `*/`); a word-like token must be followed by a byte that cannot continue it, which
+any non-empty layout guarantees. Scanning the rendering yields exactly those tokens, in order, then
+end of input — no error, nothing swallowed, whatever the layout. PARTIAL in the token kinds only
+(no doubles, hex integers, '…' literals). -/
+theorem token_roundtrip_partial (items : List (List SepItem × PTok)) (fin : List SepItem)
+    (h : layoutOk items fin = true) :
+    (lexAll (render items fin)).map (·.tok) = items.map (fun x => x.2.tok) ++ [.eof] :=
+  lexAll_render items fin h
+
+example :
+    let items : List (List SepItem × PTok) :=
+      [([.block b!"* doc ", .blank 10], .kw .struct), ([.blank 32], .ident b!"S"), ([], .sym 123),
+       ([.hash b!" c", .blank 9], .int (-5)), ([], .sym 58), ([.slashes b!"x"], .lit b!"a\\'b"), ([], .sym 125)]
+    layoutOk items [.blank 10] = true ∧
+    render items [.blank 10] = b!"/** doc */\nstruct S{# c\n\t-5://x\n\"a\\\\'b\"}\n" := by
+  decide
 
 /-- The scanner reads back every literal the natural `"`-printer writes as that LITERAL token,
 and stops at the closing quote whatever follows. -/
